@@ -404,7 +404,7 @@ def run(tier, seed, pool, t0):
     cs.t0 = time.time()
     try:
         r = subprocess.run([PY, os.path.join(VERIF, 'checks', 'twins', 'c14_scenarios.py')], capture_output=True, text=True,
-                           timeout=180, env=dict(os.environ, PYTHONPATH=os.path.join(REPO, 'src')), cwd='/')
+                           timeout=400, env=dict(os.environ, PYTHONPATH=os.path.join(REPO, 'src')), cwd='/')
         lines = [ln for ln in r.stdout.splitlines() if ln.startswith('SCENARIO ')]
     except subprocess.TimeoutExpired:
         lines = []
